@@ -3,11 +3,19 @@ import IPT.Model.Qibla
 /-
   C16 — Qibla is the great-circle bearing to the Kaaba.  Over ℝ: the reported angle is the angle,
   measured from true north towards WEST (counter-clockwise seen from above), of the direction from
-  the observer to the Kaaba, computed from 3-D unit vectors; it lies in (-180°, 180°]; the model
-  function has no elevation argument.  The one-decimal text rendering is checked by the falsifier.
+  the observer to the Kaaba, computed from 3-D unit vectors; it lies in (-180°, 180°].  Elevation:
+  the model function takes latitude and longitude only - a modelling choice that the translator backs
+  (`Qibla::new` must not mention `elevation`, gen_consts group `qibla`) and the falsifier exercises
+  with random elevations; `qibla_elevation_independent` states it for the record.  The one-decimal text rendering is checked by the falsifier.
 -/
 namespace IPT.C16
 open IPT IPT.TrigLemmas Real
+
+/-- the bearing of a place given as coordinates: elevation is carried along and not used -/
+noncomputable def qiblaOf (c : Coords ℝ) : ℝ := qiblaDegrees c.lat c.lon
+
+/-- changing only the elevation does not change the Qibla -/
+theorem qibla_elevation_independent (c : Coords ℝ) (e : ℝ) : qiblaOf { c with elev := e } = qiblaOf c := rfl
 
 /-- Kaaba coordinates used by the code: within 10⁻⁴° of 21.4233 N, 39.8233 E -/
 theorem kaaba_coordinates :
